@@ -10,9 +10,10 @@ for d in /verif/seeded/*/; do
   prop=$(/venv/bin/python -c "import json,sys; print(json.load(open('$d/meta.json'))['property'])" 2>/dev/null | tail -1)
   [ -z "$prop" ] && continue
   t0=$(date +%s)
-  res=$(/verif/selftest/mutant_run.sh "$d/patch.diff" "$prop" 2>&1 | grep -v conda)
+  res=$(KEEP_REPLAY="$d" /verif/selftest/mutant_run.sh "$d/patch.diff" "$prop" 2>&1 | grep -v conda)
   verdict=$(echo "$res" | grep -E "^(DETECTED|MISSED|HARNESS-ERROR)" | cut -d' ' -f1)
   cls=$(echo "$res" | grep "class=" | head -3 | sed 's/ *class=//' | tr '\n' ';')
-  echo "$n $prop $verdict $(( $(date +%s) - t0 ))s $cls" | tee -a "$out.tmp"
+  rp=$(echo "$res" | grep "^REPLAY" | head -1)
+  echo "$n $prop $verdict $(( $(date +%s) - t0 ))s $cls $rp" | tee -a "$out.tmp"
 done
 mv "$out.tmp" "$out"
